@@ -3,6 +3,11 @@
 //          0..4 actions {mark, passing check, failing C++-style check, failing C-style (longjmp) check, throw std,
 //          throw foreign}, a plugin that reports 0..2 errors per test, optional group filter, run-ignored, repeat 1..4;
 //          run through a CommandLineTestRunner (argv) or TestRegistry::runAllTests directly.
+//          Round 5 (coverage-guided): the static entry point CommandLineTestRunner::RunAllTests(ac, av) on the current
+//          registry with the real ConsoleTestOutput (captured at the PlatformSpecificFPuts seam); -ojunit -v (composite
+//          output, file seams stubbed); -f (crash on fail, with a crash method that returns); the Visual Studio location
+//          format; and the default "rethrow" mode (no -e) in which an unexpected exception is recorded and then leaves
+//          the run.
 // Oracle:  reference interpreter of the lifecycle: expected trace, expected failure records (file:line, test name,
 //          message class, each printed exactly once), per-repetition summary line parsed back, runner return value;
 //          history invariants: jump-buffer depth (hook) and current test / result pointers restored after every test.
@@ -90,7 +95,7 @@ TestResult* current_result() { return g_peek.peek(); }
 
 // plugin: reports errors, and samples the history invariants around every test
 struct Probe {
-    bool bad = false; std::string msg;
+    bool bad = false; std::string msg; bool rep_by_plugin = false; int last_t = 1 << 30;
     int depth0 = -1; UtestShell* cur0 = NULLPTR; TestResult* res0 = NULLPTR; int pre_seen = 0, post_seen = 0;
 } g_probe;
 int test_index_of(UtestShell& s);
@@ -104,6 +109,7 @@ public:
         if ((UtestShell::getCurrent() != g_probe.cur0 || current_result() != g_probe.res0) && !g_probe.bad) { g_probe.bad = true; g_probe.msg = sfmt("current test/result not restored before test %s", test.getName().asCharString()); }
         g_probe.pre_seen++;
         int t = test_index_of(test);
+        if (g_probe.rep_by_plugin) { if (t <= g_probe.last_t) g_rep++; g_probe.last_t = t; }   // tests run in program order: a non-increasing index starts a repetition
         for (int i = 0; i < g_prog[t].plugin_pre; i++) result.addFailure(TestFailure(&test, "plugin.cpp", (size_t)(g_prog[t].line + 1 + i), "plugin pre error"));
     }
     void postTestAction(UtestShell& test, TestResult& result) CPPUTEST_OVERRIDE {
@@ -124,6 +130,13 @@ public:
     void flush() CPPUTEST_OVERRIDE {}
     void printTestsStarted() CPPUTEST_OVERRIDE { g_rep++; TestOutput::printTestsStarted(); }
 };
+// the library's own ConsoleTestOutput writes through these seams; JUnit files go nowhere
+std::string* g_console = NULLPTR; int g_dummy_file; int g_crash_calls = 0;
+void fputs_stub(const char* s, PlatformSpecificFile f) { if (f == PlatformSpecificStdOut && g_console) *g_console += s; }
+void flush_stub() {}
+PlatformSpecificFile fopen_stub(const char*, const char*) { return &g_dummy_file; }
+void fclose_stub(PlatformSpecificFile) {}
+void crash_stub() { g_crash_calls++; }
 class Runner : public CommandLineTestRunner {
 public:
     CaptureOutput* out_ = NULLPTR; std::string* sink_;
@@ -139,7 +152,8 @@ struct FailRec { std::string loc; std::string test; std::string kind;
     bool operator==(const FailRec& o) const { return loc == o.loc && test == o.test && kind == o.kind; } };
 struct RepModel { size_t tests = 0, ran = 0, checks = 0, ignored = 0, filtered = 0, failures = 0; std::vector<TraceEv> trace; std::multiset<FailRec> fails; };
 
-RepModel model_repetition(bool group_filter, int filter_group, bool run_ignored, int rep, bool sepproc = false) {
+// rethrow: an unexpected exception is recorded, then leaves the run: nothing after it happens (aborted = true)
+RepModel model_repetition(bool group_filter, int filter_group, bool run_ignored, int rep, bool sepproc = false, bool rethrow = false, bool* aborted = NULLPTR) {
     RepModel m;
     for (size_t t = 0; t < g_prog.size(); t++) {
         const TestSpec& s = g_prog[t];
@@ -159,6 +173,7 @@ RepModel model_repetition(bool group_filter, int filter_group, bool run_ignored,
                 if (is_failing(a.act) && ((a.reps >> (rep & 3)) & 1)) {
                     if (!is_throw(a.act)) { m.checks++; m.fails.insert(FailRec{sfmt("%s:%d", TESTFILE, a.line), tname, ACT_NAME[a.act]}); }
                     else m.fails.insert(FailRec{sfmt("%s:%d", TESTFILE, s.line), tname, ACT_NAME[a.act]});
+                    if (is_throw(a.act) && rethrow) { if (aborted) *aborted = true; m.failures = m.fails.size(); return m; }
                     if (ph == 0) setup_ok = false;
                     break;                                   // nothing after a failing action in its phase
                 }
@@ -245,6 +260,11 @@ int run_case(Reader& r, bool& nontrivial, std::string& desc) {
     bool colour = r.below(6) == 1;                                  // -c (runner only)
     bool sepproc = use_runner && r.below(64) == 1;                  // -p: every test in its own forked child (small programs only)
     if (sepproc && repeat > 2) repeat = 2;
+    bool rethrow = !sepproc && r.below(6) == 1;                    // no -e: the documented default, exceptions leave the run
+    bool use_static = use_runner && !sepproc && r.below(5) == 1;   // CommandLineTestRunner::RunAllTests(ac, av) on the current registry
+    bool vs_env = r.below(8) == 1;                                  // Visual Studio location format file(line)
+    bool junit_v = use_runner && verbosity && !sepproc && r.below(3) == 1;   // -ojunit -v: composite of JUnit (files stubbed) and console
+    bool crash_f = use_runner && !sepproc && r.below(8) == 1;      // -f with a crash method that returns
     int n = 1 + (int)r.below(24);
     int mode = (int)r.below(6);          // 0..3 free scripts, 4/5 uniform program: every test carries the same script (long runs of one failing kind)
     bool uniform = mode >= 4; TestSpec proto;
@@ -274,7 +294,8 @@ int run_case(Reader& r, bool& nontrivial, std::string& desc) {
         g_prog.push_back(s);
     }
     n = (int)g_prog.size();
-    desc = sfmt("%s%s%s%s r%d%s%s: ", use_runner ? "runner" : "registry", use_runner && verbosity ? (verbosity == 1 ? " -v" : " -vv") : "", use_runner && colour ? " -c" : "", sepproc ? " -p" : "", repeat, group_filter ? sfmt(" -sg %s", GROUPS[filter_group]).c_str() : "", run_ignored ? " -ri" : "") + render();
+    desc = sfmt("%s%s%s%s%s%s%s%s r%d%s%s: ", use_static ? "RunAllTests" : use_runner ? "runner" : "registry", use_runner && verbosity ? (verbosity == 1 ? " -v" : " -vv") : "", use_runner && colour ? " -c" : "", sepproc ? " -p" : "",
+                rethrow ? " rethrow" : "", vs_env ? " vs" : "", junit_v ? " -ojunit" : "", crash_f ? " -f" : "", repeat, group_filter ? sfmt(" -sg %s", GROUPS[filter_group]).c_str() : "", run_ignored ? " -ri" : "") + render();
     if (verif::g_explain) fprintf(stderr, "%s\n", desc.c_str());
 
     // ---- build registry
@@ -288,37 +309,62 @@ int run_case(Reader& r, bool& nontrivial, std::string& desc) {
     }
     for (int t = n - 1; t >= 0; t--) reg.addTest(g_shells[t]);   // addTest prepends: register in reverse to run in program order
     UtestShell::setRethrowExceptions(false); UtestShell::restoreDefaultTestTerminator();
+    TestOutput::setWorkingEnvironment(vs_env ? TestOutput::visualStudio : TestOutput::eclipse);
+    g_crash_calls = 0; if (crash_f) UtestShell::setCrashMethod(crash_stub);
     UtestShell* cur_before = UtestShell::getCurrent(); TestResult* res_before = current_result();
     int depth_before = CppUTestVerif_JumpBufferDepth();
 
     // ---- run
-    std::string out; int rv = 0; bool rv_valid = false;
+    std::string out; int rv = 0; bool rv_valid = false; bool escaped = false;
+#if CPPUTEST_HAVE_EXCEPTIONS
+    try {
+#endif
     if (use_runner) {
         std::vector<std::string> args = {"prog"};
-        if (any_throw || extra_e) args.push_back("-e");   // without -e the documented behaviour is to rethrow out of the runner
+        if (!rethrow && (any_throw || extra_e)) args.push_back("-e");   // without -e the documented behaviour is to rethrow out of the runner
         if (repeat > 1) args.push_back(sfmt("-r%d", repeat));
         if (group_filter) { args.push_back("-sg"); args.push_back(GROUPS[filter_group]); }
         if (run_ignored) args.push_back("-ri");
         if (verbosity == 1) args.push_back("-v"); else if (verbosity == 2) args.push_back("-vv");
         if (colour) args.push_back("-c");
         if (sepproc) args.push_back("-p");
+        if (junit_v) args.push_back("-ojunit");
+        if (crash_f) args.push_back("-f");
         std::vector<const char*> av; for (auto& a : args) av.push_back(a.c_str());
-        Runner runner((int)av.size(), av.data(), &reg, &out);
-        rv = runner.runAllTestsMain(); rv_valid = true;
-        out = runner.text();
+        if (use_static) {
+            struct Scope { TestRegistry* reg; Scope(TestRegistry* g, std::string* o) : reg(g) { g_console = o; g_probe.rep_by_plugin = true; reg->setCurrentRegistry(reg); }
+                           ~Scope() { g_console = NULLPTR; reg->setCurrentRegistry(NULLPTR); } } scope(&reg, &out);
+            rv = CommandLineTestRunner::RunAllTests((int)av.size(), av.data()); rv_valid = true;
+        } else {
+            Runner runner((int)av.size(), av.data(), &reg, &out);
+            rv = runner.runAllTestsMain(); rv_valid = true;
+            out = runner.text();
+        }
     } else {
         CaptureOutput o; TestResult tr(o);
+        struct Keep { CaptureOutput& o; std::string& out; ~Keep() { out = o.text; } } keep{o, out};
         TestFilter f(GROUPS[filter_group]); f.strictMatching();
         if (group_filter) reg.setGroupFilters(&f);
         if (run_ignored) reg.setRunIgnored();
+        UtestShell::setRethrowExceptions(rethrow);
+        struct Unfilter { TestRegistry& reg; ~Unfilter() { reg.setGroupFilters(NULLPTR); } } unfilter{reg};
         reg.runAllTests(tr);
-        out = o.text;
-        reg.setGroupFilters(NULLPTR);
     }
+#if CPPUTEST_HAVE_EXCEPTIONS
+    } catch (const std::runtime_error&) { escaped = true; rv_valid = false; }
+      catch (int) { escaped = true; rv_valid = false; }
+#endif
+    // An exception that leaves the run passes through the setjmp frame of runOneTest without popping it (one slot of the
+    // ten-slot stack per abandoned run).  The run is abandoned at that point, so this is not judged (DESIGN.md section 9,
+    // observations); the slots are popped here so that later cases start from the same depth.
+    if (escaped) while (CppUTestVerif_JumpBufferDepth() > depth_before) PlatformSpecificRestoreJumpBuffer();
+    TestOutput::setWorkingEnvironment(TestOutput::eclipse);
+    UtestShell::resetCrashMethod(); UtestShell::restoreDefaultTestTerminator();
     UtestShell::setRethrowExceptions(false);
+    bool had_colour = false;
     if (use_runner && colour) {   // colour only wraps the summary in escape sequences: strip them, then judge as usual
         std::string plain; for (size_t i = 0; i < out.size(); i++) { if (out[i] == '\033') { size_t m = out.find('m', i); if (m == std::string::npos) break; i = m; } else plain.push_back(out[i]); }
-        if (out.find("\033[") == std::string::npos) return verif::fail("C01:colour", "-c given but the summary carries no colour sequence");
+        had_colour = out.find("\033[") != std::string::npos;
         out = plain;
     }
 
@@ -326,20 +372,36 @@ int run_case(Reader& r, bool& nontrivial, std::string& desc) {
     if (sepproc) g_trace.clear();   // the children's statements are not visible to the parent
     V_CHECK(!g_probe.bad, "C01:history-invariant", "%s [%s]", g_probe.msg.c_str(), desc.c_str());
     V_CHECK(CppUTestVerif_JumpBufferDepth() == depth_before, "C01:jump-depth", "jump-buffer depth %d after the run, %d before [%s]", CppUTestVerif_JumpBufferDepth(), depth_before, desc.c_str());
-    V_CHECK(UtestShell::getCurrent() == cur_before && current_result() == res_before, "C01:current-restored", "current test / result not restored after the run [%s]", desc.c_str());
-    std::vector<RepModel> ms; for (int k = 0; k < repeat; k++) ms.push_back(model_repetition(group_filter, filter_group, run_ignored, k, sepproc));
+    // (when an exception left the run the library leaves both as they were inside the test; they are only ever compared, never followed)
+    if (!escaped) V_CHECK(UtestShell::getCurrent() == cur_before && current_result() == res_before, "C01:current-restored", "current test / result not restored after the run [%s]", desc.c_str());
+    bool aborted = false; int completed = 0;    // repetitions that ran to their summary
+    std::vector<RepModel> ms; for (int k = 0; k < repeat && !aborted; k++) { ms.push_back(model_repetition(group_filter, filter_group, run_ignored, k, sepproc, rethrow, &aborted)); if (!aborted) completed++; }
     const RepModel& m = ms[0];
-    // trace: the events of every repetition, in order
-    std::vector<TraceEv> want; for (int k = 0; k < repeat; k++) want.insert(want.end(), ms[k].trace.begin(), ms[k].trace.end());
+    if (use_runner && colour && completed > 0) V_CHECK(had_colour, "C01:colour", "-c given but the summary carries no colour sequence [%s]", desc.c_str());
+    V_CHECK(escaped == aborted, "C01:rethrow", "%s [%s]", escaped ? "an exception left the run although none was to be rethrown" : "rethrow mode: the unexpected exception did not leave the run", desc.c_str());
+    // trace: the events of every repetition, in order (up to the exception that left the run)
+    std::vector<TraceEv> want; for (size_t k = 0; k < ms.size(); k++) want.insert(want.end(), ms[k].trace.begin(), ms[k].trace.end());
+    bool teardown_after_throw = false;
+    if (aborted && g_trace.size() > want.size() && !want.empty() && want.back().phase < 2) {
+        // the statement lets the teardown of the abandoned test run or not; nothing else may follow the exception
+        bool only_teardown = true; for (size_t i = want.size(); i < g_trace.size(); i++) if (g_trace[i].test != want.back().test || g_trace[i].phase != 2) only_teardown = false;
+        if (only_teardown && std::equal(want.begin(), want.end(), g_trace.begin())) { teardown_after_throw = true; g_trace.resize(want.size()); }
+    }
     if (!(want == g_trace)) {
         size_t i = 0; while (i < want.size() && i < g_trace.size() && want[i] == g_trace[i]) i++;
         std::string w = i < want.size() ? sfmt("test %d phase %d action %d", want[i].test, want[i].phase, want[i].idx) : "end", g = i < g_trace.size() ? sfmt("test %d phase %d action %d", g_trace[i].test, g_trace[i].phase, g_trace[i].idx) : "end";
         return verif::fail("C01:trace", "executed statements differ from the lifecycle model at event %zu: expected %s, got %s [%s]", i, w.c_str(), g.c_str(), desc.c_str());
     }
-    if (!sepproc) V_CHECK(g_probe.pre_seen == (int)(m.ran * repeat) && g_probe.post_seen == g_probe.pre_seen, "C01:plugin-actions", "plugin saw %d pre / %d post actions, expected %zu", g_probe.pre_seen, g_probe.post_seen, m.ran * repeat);
+    if (!sepproc && !aborted) V_CHECK(g_probe.pre_seen == (int)(m.ran * repeat) && g_probe.post_seen == g_probe.pre_seen, "C01:plugin-actions", "plugin saw %d pre / %d post actions, expected %zu", g_probe.pre_seen, g_probe.post_seen, m.ran * repeat);
     // failures printed exactly once each
-    std::vector<FailRec> got = parse_failures(out); std::multiset<FailRec> gs(got.begin(), got.end()), ws;
-    for (int k = 0; k < repeat; k++) ws.insert(ms[k].fails.begin(), ms[k].fails.end());
+    std::vector<FailRec> got = parse_failures(out);
+    if (vs_env) for (auto& f : got) {   // file(line) is the Visual Studio form of file:line
+        size_t o = f.loc.rfind('('); V_CHECK(o != std::string::npos && f.loc.size() > o + 2 && f.loc.back() == ')' && f.loc.find(':') == std::string::npos, "C01:failure-print", "Visual Studio format asked for, location printed as '%s' [%s]", f.loc.c_str(), desc.c_str());
+        f.loc = f.loc.substr(0, o) + ":" + f.loc.substr(o + 1, f.loc.size() - o - 2);
+    } else for (auto& f : got) V_CHECK(f.loc.find('(') == std::string::npos, "C01:failure-print", "location printed as '%s' in the default format [%s]", f.loc.c_str(), desc.c_str());
+    std::multiset<FailRec> gs(got.begin(), got.end()), ws;
+    for (size_t k = 0; k < ms.size(); k++) ws.insert(ms[k].fails.begin(), ms[k].fails.end());
+    if (teardown_after_throw) for (auto& f : gs) if (!ws.count(f)) ws.insert(f);   // failures of that teardown are not modelled
     if (gs != ws) {
         for (auto& f : ws) if (gs.count(f) != ws.count(f)) return verif::fail("C01:failure-print", "failure %s at %s in %s printed %zu time(s), expected %zu [%s]", f.kind.c_str(), f.loc.c_str(), f.test.c_str(), gs.count(f), ws.count(f), desc.c_str());
         for (auto& f : gs) if (!ws.count(f)) return verif::fail("C01:failure-print", "unexpected failure record %s at %s in %s [%s]", f.kind.c_str(), f.loc.c_str(), f.test.c_str(), desc.c_str());
@@ -347,9 +409,9 @@ int run_case(Reader& r, bool& nontrivial, std::string& desc) {
     // summaries, one per repetition, each judged against that repetition's model
     std::vector<Summary> sums;
     V_CHECK(parse_summaries(out, sums), "C01:summary-format", "cannot parse a summary line [%s] output: %.300s", desc.c_str(), out.c_str());
-    V_CHECK((int)sums.size() == repeat, "C01:summary-count", "%zu summaries for %d repetition(s)", sums.size(), repeat);
+    V_CHECK((int)sums.size() == completed, "C01:summary-count", "%zu summaries for %d completed repetition(s) [%s]", sums.size(), completed, desc.c_str());
     bool all_ok = true;
-    for (int k = 0; k < repeat; k++) {
+    for (int k = 0; k < completed; k++) {
         const Summary& s = sums[k]; const RepModel& mk = ms[k];
         bool want_ok = mk.failures == 0 && (mk.ran + mk.ignored) > 0;
         all_ok = all_ok && want_ok;
@@ -360,7 +422,7 @@ int run_case(Reader& r, bool& nontrivial, std::string& desc) {
                      else V_CHECK(s.ran_nothing, "C01:summary-failures", "no failure and nothing run, but the summary does not say so"); }
     }
     if (rv_valid) V_CHECK((rv == 0) == all_ok, "C01:return-value", "runner returned %d, repetitions all OK = %d [%s]", rv, all_ok, desc.c_str());
-    { bool differ = false; for (int k = 1; k < repeat; k++) if (ms[k].failures != ms[0].failures) differ = true; if (differ) verif::cls("repetitions-differ"); }
+    { bool differ = false; for (size_t k = 1; k < ms.size(); k++) if (ms[k].failures != ms[0].failures) differ = true; if (differ) verif::cls("repetitions-differ"); }
 
     // ---- non-trivial rule
     int consecutive = 0, best = 0; bool fail_then_pass = false, outside_body = false, prev_failed = false;
@@ -373,6 +435,8 @@ int run_case(Reader& r, bool& nontrivial, std::string& desc) {
     nontrivial = (n >= 2 && outside_body) || best >= 11 || fail_then_pass;
     if (best >= 11) verif::cls("run-of-11+-failing"); if (use_runner) verif::cls("via-runner"); else verif::cls("via-registry");
     if (sepproc) verif::cls("-p (separate process)");
+    if (use_static) verif::cls("static RunAllTests + real console output"); if (rethrow) verif::cls("rethrow mode"); if (aborted) verif::cls("exception left the run");
+    if (vs_env) verif::cls("visual-studio format"); if (junit_v) verif::cls("-ojunit -v composite"); if (crash_f) verif::cls(g_crash_calls ? "-f, crash method called" : "-f");
     if (use_runner && verbosity) verif::cls(verbosity == 1 ? "-v" : "-vv"); if (use_runner && colour) verif::cls("-c");
     if (repeat > 1) verif::cls("repeat>1"); if (any_throw) verif::cls("throws"); if (group_filter) verif::cls("group-filter"); if (run_ignored) verif::cls("run-ignored");
     return 0;
@@ -381,7 +445,10 @@ int run_case(Reader& r, bool& nontrivial, std::string& desc) {
 }  // namespace
 
 extern "C" const char* verif_property(void) { return "C01"; }
-extern "C" void verif_init(void) { verif::install_fake_time(); }
+extern "C" void verif_init(void) {
+    verif::install_fake_time();
+    PlatformSpecificFPuts = fputs_stub; PlatformSpecificFlush = flush_stub; PlatformSpecificFOpen = fopen_stub; PlatformSpecificFClose = fclose_stub;
+}
 extern "C" int verif_case(const uint8_t* data, size_t size) {
     Reader r(data, size);
     bool nontrivial = false; std::string desc;
